@@ -31,12 +31,36 @@ func NewLens[S, A any](t hseq.Type[S]) Lens[S, A] {
 	ft := t.Type
 	fv := reflect.TypeOf(new(A)).Elem()
 
+	cat := reflect.TypeOf(new(S)).Elem()
+	if !inline(cat, 0, t.StructField, t.RootOffs) {
+		panic(fmt.Errorf("invalid type: Lens[%s, %s] field %s is not stored inside the struct (pointer container or embedded pointer)", cat.String(), fv.String(), t.Name))
+	}
+
 	if ft.String() == fv.String() && ft.AssignableTo(fv) {
 		return &lens[S, A]{t}
 	}
 
-	cat := reflect.TypeOf(new(S)).Elem()
 	panic(fmt.Errorf("invalid type: Lens[%s, %s] not compatible with %s", cat.Name(), ft.Name(), fv.Name()))
+}
+
+// inline checks that the field f at base offset root is stored inside the struct cat,
+// reachable through plain fields and structs embedded by value only.
+func inline(cat reflect.Type, base uintptr, f reflect.StructField, root uintptr) bool {
+	if cat.Kind() != reflect.Struct {
+		return false
+	}
+
+	for i := 0; i < cat.NumField(); i++ {
+		fv := cat.Field(i)
+		if base == root && fv.Offset == f.Offset && fv.Name == f.Name && fv.Type == f.Type {
+			return true
+		}
+		if fv.Anonymous && fv.Type.Kind() == reflect.Struct && inline(fv.Type, base+fv.Offset, f, root) {
+			return true
+		}
+	}
+
+	return false
 }
 
 type lens[S, A any] struct{ hseq.Type[S] }
